@@ -141,3 +141,68 @@ def refines_spec(cls, nids):
                               H.forall(3, len(payload), lambda j: H.byte_at(payload, j) == pad_val)))
         for msg in bus.sent:
             H.check("C12:only-paired-tx-ids-used", msg.arbitration_id == tx_ids[idx])
+
+
+def _seq_family(tier, seed):
+    if tier == "quick":
+        return [{"cls": "passive", "nids": 1, "steps": 2}]
+    return [{"cls": "passive", "nids": 1, "steps": 3}, {"cls": "passive", "nids": 2, "steps": 2},
+            {"cls": "active", "nids": 1, "steps": 2}]
+
+
+@harness(props=["C12", "C13"], strength="B", family=_seq_family,
+         bound="sequences of 2 (quick) / 3 (thorough) arbitrary frames through the real decode_rx_frame from a freshly "
+         "constructed machine with arbitrary reassembly cells: guards the per-frame contract against state that its "
+         "representation invariant does not mention (caches, counters added by a change)",
+         functions=[IsoTpStateMachine.decode_rx_frame], assumes=["A-bitstruct", "A-lib"],
+         limits={"max_paths": 40000, "task_timeout": 1500})
+def sequence_refines_spec(cls, nids, steps):
+    """k consecutive arbitrary frames: after each one outputs and cells equal the step specification applied in sequence"""
+    ids = [H.int(f"id{k}", 0, 0x1FFFFFFF) for k in range(nids)]
+    for a in range(nids):
+        for b in range(a + 1, nids):
+            H.assume(ids[a] != ids[b])
+    if cls == "active":
+        bus = GhostBus()
+        tx_ids = [H.int(f"tx{k}", 0, 0x1FFFFFFF) for k in range(nids)]
+        for a in range(nids):
+            for b in range(nids):
+                H.assume(tx_ids[a] != ids[b])
+        sm = IsoTpActiveDecoder(bus, list(ids), list(tx_ids))
+    else:
+        sm = IsoTpStateMachine(list(ids))
+    cells = []
+    for k in range(nids):
+        if H.bool(f"inprogress{k}"):
+            sm._telegram_data[k] = H.bytearray(f"buf{k}", 0, 4200)
+        sm._telegram_specified_len[k] = H.int(f"announced{k}", 0, 4095)
+        sm._telegram_last_rx_fragment_idx[k] = H.int(f"lastseq{k}", 0, 15)
+        cells.append((None if sm._telegram_data[k] is None else H.snapshot(sm._telegram_data[k]),
+                      sm._telegram_specified_len[k], sm._telegram_last_rx_fragment_idx[k]))
+    for s in range(steps):
+        rx_id = H.int(f"rx_id{s}", 0, 0x1FFFFFFF)
+        data = H.bytes(f"data{s}", 0, 64)
+        try:
+            out = list(sm.decode_rx_frame(rx_id, data))
+        except Exception as ex:
+            H.check("C13:never-raises", False)
+            return
+        idx = None
+        for k in range(nids):
+            if idx is None and rx_id == ids[k]:
+                idx = k
+        if idx is None:
+            H.check("seq:unknown-id:no-output", len(out) == 0)
+        else:
+            new_cell, outputs, event = S.step(cells[idx], data)
+            H.check("seq:output-count-as-spec", len(out) == len(outputs))
+            if len(out) == len(outputs):
+                for (o, so) in zip(out, outputs):
+                    H.check("seq:output-as-spec", H.And(o[0] == rx_id, H.eq(o[1], so)))
+            cells[idx] = new_cell
+        for k in range(nids):
+            cur = (sm._telegram_data[k], sm._telegram_specified_len[k], sm._telegram_last_rx_fragment_idx[k])
+            H.check("seq:cells-as-spec", _cell_eq(cur[0], cur[1], cur[2], cells[k]))
+            # the spec cell holds immutable snapshots; re-snapshot the implementation's buffer for the next step
+            if cur[0] is not None:
+                cells[k] = (H.snapshot(cur[0]), cells[k][1], cells[k][2])
